@@ -11,7 +11,7 @@ CHECKS = {
         engine="seqx",
         category="model_checking",
         technique="explicit-state search over operation histories of the real backends, reference-model oracle (bounded exhaustive, state de-duplication)",
-        text="Every history of BaseStorage calls up to the depth bound, from the empty storage and from 10 seeded non-initial states, is executed on every backend configuration (in-memory, SQLite RDB, cached RDB, journal over list/file(2 locks)/fakeredis, in-process gRPC proxy over mem/journal/RDB/cached) and compared, call by call and getter by getter, with a dict-based reference model of the documented contract. No sampling: the enumeration is complete within the stated bounds.",
+        text="Every history of BaseStorage calls up to the depth bound, from the empty storage and from 11 seeded non-initial states, is executed on every backend configuration (in-memory, SQLite RDB, cached RDB, journal over list/file(2 locks)/fakeredis, in-process gRPC proxy over mem/journal/RDB/cached) and compared, call by call and getter by getter, with a dict-based reference model of the documented contract. No sampling: the enumeration is complete within the stated bounds.",
         note="Trusted: the reference model (vf/refmodel.py), SQLite standing for RDB, fakeredis standing for Redis, the in-process gRPC stub standing for the HTTP/2 transport. Depth bounds are small (see evidence).",
         design="3/C01",
     ),
